@@ -240,6 +240,64 @@ def find_item(path, selector):
                 _line_of(src, toks[s].start), _line_of(src, toks[e - 1].end - 1), src_text, header)
 
 
+def find_closure(path, fn_selector, k):
+    """k-th (1-based) closure expression inside the body of the function selected by fn_selector.
+       Returns an Item of kind 'closure' whose toks are the closure *body* tokens (a block incl. braces, or an expression)."""
+    it = find_item(path, fn_selector)
+    src, _ = _load(path)
+    toks = it.toks
+    code = [i for i, t in enumerate(toks) if t.kind not in ("ws", "lcomment", "bcomment")]
+    found = []
+    ci = 0
+    while ci < len(code):
+        i = code[ci]
+        t = toks[i]
+        if t.kind == "punct" and t.text in ("|", "||") and ci > 0:
+            prev = toks[code[ci - 1]]
+            if (prev.kind == "punct" and prev.text in ("(", ",", "=", "{", ";")) or (prev.kind == "ident" and prev.text in ("move", "return")):
+                # parameters
+                if t.text == "||":
+                    pe = ci
+                else:
+                    pe = ci + 1
+                    while pe < len(code) and not (toks[code[pe]].kind == "punct" and toks[code[pe]].text == "|"):
+                        if toks[code[pe]].text in ("(", "["):
+                            cl = match_close(toks, code[pe])
+                            while code[pe] < cl:
+                                pe += 1
+                            continue
+                        pe += 1
+                bstart = code[pe + 1]
+                if toks[bstart].kind == "punct" and toks[bstart].text == "{":
+                    bend = match_close(toks, bstart)
+                else:
+                    q = pe + 1
+                    depth = 0
+                    bend = bstart
+                    while q < len(code):
+                        tq = toks[code[q]]
+                        if tq.kind == "punct" and tq.text in "([{":
+                            cl = match_close(toks, code[q])
+                            while q < len(code) and code[q] <= cl:
+                                bend = code[q]
+                                q += 1
+                            continue
+                        if tq.kind == "punct" and tq.text in (",", ")", ";", "}"):
+                            break
+                        bend = code[q]
+                        q += 1
+                found.append((i, bstart, bend))
+                # continue scanning after the closure header (nested closures inside the body are found too)
+        ci += 1
+    if k < 1 or k > len(found):
+        raise LostAnchor("closure #%d of %r not found in %s (%d closures)" % (k, fn_selector, path, len(found)))
+    i, bstart, bend = found[k - 1]
+    btoks = toks[bstart:bend + 1]
+    text = src[btoks[0].start:btoks[-1].end]
+    params = untok(toks[i:bstart]).strip()
+    return Item("closure", "%s#%d" % (it.name, k), path, btoks, None, _line_of(src, btoks[0].start), _line_of(src, btoks[-1].end - 1), params + " " + text, params)
+
+
 def list_items(path):
     src, toks = _load(path)
     out = []
